@@ -128,8 +128,8 @@ func hostByHashing(pool HostPool, s string) *UpstreamHost {
 	poolLen := uint32(len(pool))
 	index := hash(s) % poolLen
 	for i := uint32(0); i < poolLen; i++ {
-		index += i
-		host := pool[index%poolLen]
+		// probe linearly so that every slot is visited exactly once
+		host := pool[(index+i)%poolLen]
 		if host.Available() {
 			return host
 		}
